@@ -1,5 +1,6 @@
 """C07 - number tests report the exact tail probabilities of the forecast count law."""
 import math
+import os
 
 import numpy
 import scipy.stats
@@ -182,6 +183,33 @@ def check_catalog(ctx, case):
                     ctx.violation("catalog:second_test_quantile_wrong", {"got": list(o2.value.quantile)})
         elif not (o1.ok and o2.ok):
             ctx.unexpected(o1 if not o1.ok else o2, "catalog_number_test_twice")
+        # the same catalogs streamed from a file with the filter configured at load time, catalogs kept in memory after the first
+        # pass (store=True) or re-read (store=False): every N-test, first pass or later, sees the filtered sizes
+        if S.nm >= 2:
+            import csep
+            from pbt import files
+            from pbt.core import workdir
+            want2 = [len([j for j in range(sz) if j % keepm == 0]) for sz in sizes]
+            for store in (True, False):
+                with workdir() as d:
+                    p = os.path.join(d, "forecast.csv")
+                    raw = [[S.event(i, k, m) for i, (k, m) in enumerate([(0, 0 if (j % keepm) else S.nm - 1) for j in range(sz)])] for sz in sizes]
+                    files.write_catalog_forecast(p, raw, ["placeholder"] * len(raw), frac="us")
+                    cf3 = call(lambda: csep.load_catalog_forecast(p, region=S.region(), start_time=G.T0, end_time=G.T1, name="cf", store=store,
+                                                                 filters=["magnitude >= %r" % S.edges[-1]], apply_filters=True))
+                    if not cf3.ok:
+                        ctx.unexpected(cf3, "load_catalog_forecast")
+                        continue
+                    for which in ("first", "second", "third"):
+                        o3 = call(CE.number_test, cf3.value, obs_cat, verbose=False)
+                        if not o3.ok:
+                            ctx.unexpected(o3, "catalog_number_test:file:%s_pass" % which)
+                            break
+                        if list(o3.value.test_distribution) != want2:
+                            ctx.violation("catalog:file_forecast_filter_not_applied_on_%s_pass" % which,
+                                          {"store": store, "got": list(o3.value.test_distribution)[:10], "want": want2[:10]})
+                            break
+                ctx.count("file_forecast_number_tests")
 
 
 def nontrivial(case):
